@@ -186,6 +186,11 @@ class RObj:
         self._o = o
         self._log = log
 
+    m_pt = property(lambda self: self._o.pt)
+    m_ntrk = property(lambda self: self._o.nTrk)
+    m_q = property(lambda self: self._o.q)
+    m_good = property(lambda self: self._o.good)
+
     def pt(self): return self._o.pt
     def eta(self): return self._o.eta
     def phi(self): return self._o.phi
